@@ -59,6 +59,18 @@ func c14Value(tag string) interface{} {
 	return ""
 }
 
+// c14Batch: the values of an insert, 0..2 of them.
+func c14Batch() []interface{} {
+	var vs []interface{}
+	switch vf.Choice("batch", 3) {
+	case 1:
+		vs = []interface{}{c14Value("v0")}
+	case 2:
+		vs = []interface{}{c14Value("v0"), "second"}
+	}
+	return vs
+}
+
 func c14ValuesEq(a, b []interface{}) bool {
 	if len(a) != len(b) {
 		return false
@@ -148,7 +160,8 @@ func VF_C14_Encoding() {
 	case 3:
 		op = operations.NewRemoveOperation(str)
 	case 4:
-		o := operations.NewInsertOperation(0, []interface{}{c14Value("v0"), "second"})
+		// a batch of 0..2 values (InsertMany with an empty batch is a valid call that is numbered and pushed)
+		o := operations.NewInsertOperation(0, c14Batch())
 		o.GetBody().T = c14TS("target")
 		op = o
 	case 5:
@@ -164,7 +177,7 @@ func VF_C14_Encoding() {
 	case 8:
 		op = operations.NewDocRemoveInObjOperation(c14TS("parent"), str)
 	case 9:
-		o := operations.NewDocInsertToArrayOperation(c14TS("parent"), 0, []interface{}{c14Value("v0")})
+		o := operations.NewDocInsertToArrayOperation(c14TS("parent"), 0, c14Batch())
 		o.GetBody().T = c14TS("target")
 		op = o
 	case 10:
